@@ -27,6 +27,10 @@ def columns (t : P) : List ColInfo :=
 def objectiveVec (cols : List ColInfo) (obj : List (String × Int)) : List Int :=
   cols.map (fun c => (obj.lookup c.id).getD 0)
 
+/-- one objective vector per request, each built from its own dictionary -/
+def objectives (cols : List ColInfo) (objs : List (List (String × Int))) : List (List Int) :=
+  objs.map (objectiveVec cols)
+
 /-- `zip(A.variables, solution)` filtered -/
 def zipKeep (keep : ColInfo → Bool) : List ColInfo → List Int → List (String × Int)
   | c :: cs, v :: vs => if keep c then (c.id, v) :: zipKeep keep cs vs else zipKeep keep cs vs
